@@ -191,3 +191,37 @@ func TestHeapDiscipline(t *testing.T) {
 		}
 	})
 }
+
+// Variable holders (small and big values behind one type): own generator, same invariants.
+func TestVariableHolders(t *testing.T) {
+	defer vf.AfterCheck(t)
+	vf.Checks(96, 1500)
+	rapid.Check(t, func(t *rapid.T) {
+		src, _, feats := gen.GenerateVariableProgram(t, rapid.IntRange(0, 3).Draw(t, "main-in-function") > 0)
+		c := Case{Source: src}
+		if vf.Thorough() {
+			c.Levels = []int{0, 1, 2}
+		} else {
+			c.Levels = []int{rapid.SampledFrom([]int{0, 1, 2, 2}).Draw(t, "level")}
+		}
+		fl := []string{"variable-scenario"}
+		for f := range feats {
+			c.Features = append(c.Features, f)
+			fl = append(fl, f)
+		}
+		sort.Strings(c.Features)
+		f, outcome, allocs := judge(c)
+		if vf.Report(t, f) {
+			return
+		}
+		if outcome != "ok" {
+			vf.Count("outcome:" + outcome)
+			if outcome == "frontend-rejected" {
+				t.Logf("generator defect:\n%s", src)
+			}
+			return
+		}
+		vf.Case(src, allocs >= 20, fl...)
+		vf.Sample("variable-scenario", map[string]any{"source": src, "allocations": allocs})
+	})
+}
